@@ -986,6 +986,62 @@ impl Spec for Small {
     }
 }
 
+/// A user-defined ordered key whose encoding depends on the mode (like a curve point, which is not `Ord`): the value
+/// as u16 when compressed; the value followed by its bitwise complement when uncompressed (a mismatch is malformed).
+/// Ordered maps and sets keyed by it have different sizes in the two modes (seeded change C18-m9).
+#[derive(Clone, Copy, PartialEq, Eq, PartialOrd, Ord, Debug)]
+struct ModeKey(u16);
+impl CanonicalSerialize for ModeKey {
+    fn serialize_with_mode<Wr: Write>(&self, mut w: Wr, c: Compress) -> Result<(), SerializationError> {
+        w.write_all(&self.0.to_le_bytes())?;
+        if c == Compress::No {
+            w.write_all(&(!self.0).to_le_bytes())?;
+        }
+        Ok(())
+    }
+    fn serialized_size(&self, c: Compress) -> usize {
+        if c == Compress::Yes {
+            2
+        } else {
+            4
+        }
+    }
+}
+impl Valid for ModeKey {
+    fn check(&self) -> Result<(), SerializationError> {
+        Ok(())
+    }
+}
+impl CanonicalDeserialize for ModeKey {
+    fn deserialize_with_mode<Rd: Read>(mut r: Rd, c: Compress, _v: Validate) -> Result<Self, SerializationError> {
+        let mut b = [0u8; 2];
+        r.read_exact(&mut b)?;
+        let x = u16::from_le_bytes(b);
+        if c == Compress::No {
+            r.read_exact(&mut b)?;
+            if u16::from_le_bytes(b) != !x {
+                return Err(SerializationError::InvalidData);
+            }
+        }
+        Ok(ModeKey(x))
+    }
+}
+impl Spec for ModeKey {
+    fn enc(&self, c: bool, e: &mut E) {
+        put_le(&mut e.out, self.0 as u128, 2);
+        if !c {
+            put_le(&mut e.out, (!self.0) as u128, 2);
+        }
+    }
+    fn dec(d: &mut D, c: bool, _v: bool) -> R<Self> {
+        let x = get_le(d.take(2)?) as u16;
+        if !c && get_le(d.take(2)?) as u16 != !x {
+            return d.bad("modekey_complement");
+        }
+        Ok(Some(ModeKey(x)))
+    }
+}
+
 // ------------------------------------------------------------------------------------------
 // the serde path of the mode-pinning wrappers, presented as a Canonical* type so that the generic
 // machinery (valid sweep, malformed sweep in the child) applies to it: bytes <-> JSON base64 string
@@ -1424,6 +1480,15 @@ fn registry(wv: bool, thorough: bool) -> Vec<Ty> {
             }
         }
         out
+    });
+    // keys whose encoding depends on the mode (user-defined `Ord` type): all subsets of a 3-key set
+    reg::<BTreeMap<ModeKey, u8>>(&mut o, wv, "BTreeMap<ModeKey,u8>", "btreemap", LENP, || subsets(&[ModeKey(0), ModeKey(0x00ff), ModeKey(0xff00)]).into_iter().map(|s| s.into_iter().map(|k| (k, (k.0 >> 4) as u8 ^ 0x3c)).collect()).collect());
+    reg::<BTreeMap<ModeKey, Vec<ModeKey>>>(&mut o, wv, "BTreeMap<ModeKey,Vec<ModeKey>>", "btreemap", LENP | NESTED, || {
+        subsets(&[ModeKey(1), ModeKey(0x8000)]).into_iter().map(|s| s.into_iter().map(|k| (k, vec![k; (k.0 % 3) as usize])).collect()).collect()
+    });
+    reg::<BTreeSet<ModeKey>>(&mut o, wv, "BTreeSet<ModeKey>", "btreeset", LENP, || subsets(&[ModeKey(0), ModeKey(0x00ff), ModeKey(0xff00)]).into_iter().map(|s| s.into_iter().collect()).collect());
+    reg::<BTreeMap<(u8, ModeKey), Option<ModeKey>>>(&mut o, wv, "BTreeMap<(u8,ModeKey),Option<ModeKey>>", "btreemap", LENP | NESTED, || {
+        subsets(&[(0u8, ModeKey(7)), (0xff, ModeKey(0xfffe))]).into_iter().map(|s| s.into_iter().map(|k| (k, if k.0 == 0 { None } else { Some(k.1) })).collect()).collect()
     });
     reg::<BTreeSet<Vec<u8>>>(&mut o, wv, "BTreeSet<Vec<u8>>", "btreeset", LENP | NESTED, || subsets(&[vec![], vec![1u8], vec![1, 2]]).into_iter().map(|s| s.into_iter().collect()).collect());
     // --- big integers
